@@ -175,12 +175,69 @@ def check_case(out: Outcome, case, tag):
             w = path.wrapped_sites()
             if [tuple(map(int, x)) for x in w] != sites:
                 out.fail('property', 'wrapped-sites', c, expected=sites, observed=w)
+    check_same_object_sequence(out, case)
     blocked = bool((~((E >= 0) & (E < thr))).any())
     steps = int(core.dec_rat(opt['steps'])) if reachable else 0
     if steps >= 3 and blocked and len(set(shape)) >= 2:
         out.nontrivial.add(json.dumps(case, sort_keys=True))
     if len(out.samples) < 2 and np.prod(shape) <= 12 and steps >= 2:
         out.sample({'tag': tag, **case, 'optimal': opt})
+
+
+def check_same_object_sequence(out: Outcome, case):
+    """a history on ONE volume object, graph never supplied by the caller: path -> the caller prunes a graph it was handed -> path
+    again -> a voxel of that path is raised above the threshold IN PLACE -> path again.  Every answer must be valid and cost-minimal
+    for the grid as it is at that moment (default graph: threshold 1e7, all 26 neighbours)."""
+    shape = tuple(case['shape'])
+    E = np.array(case['E'], float).reshape(shape)
+    start, stop = tuple(case['start']), tuple(case['stop'])
+    THR = 1e7
+    if start == stop or not all(0 <= E[v] < THR for v in (start, stop)):
+        return
+    fev = FreeEnergyVolume(data=E.copy(), lattice=Lattice(np.eye(3) * 5.0))
+
+    def ask(step):
+        grid = np.array(fev.data, float)
+        gl = enc_grid(grid, THR, True)
+        want = core.drive1(f'optimum {gl} {enc_vox(start)} {enc_vox(stop)}').split()[1:]
+        c = {**case, 'thr': THR, 'diag': True, 'same_object_history': step}
+        try:
+            p = fev.optimal_path(start=start, stop=stop, method='dijkstra')
+        except (nx.NetworkXNoPath, nx.NodeNotFound):
+            if want[0] != 'none':
+                out.fail('property', 'path-exists-but-refused', c, expected=want[0], note=step)
+            return None
+        sites = [tuple(int(x) for x in q) for q in p.sites]
+        if want[0] == 'none':
+            out.fail('property', 'path-through-inadmissible-voxels', c, expected='no admissible path', observed=sites, note=step)
+            return None
+        pc = core.drive1(f'pathcheck {gl} {len(sites)} ' + ' '.join(enc_vox(q) for q in sites)).split()
+        if pc[1] != '1':
+            out.fail('property', 'steps-between-admissible-neighbours', c, observed=sites, note=step)
+            return None
+        if [float(x) for x in p.energy] != [float(grid[q]) for q in sites]:
+            out.fail('property', 'reported-energies', c, expected=[float(grid[q]) for q in sites], observed=list(map(float, p.energy)), note=step)
+            return None
+        if core.dec_rat(pc[2]) != core.dec_rat(want[0]):
+            out.fail('property', 'cost-minimal', c, expected=want[0], observed=pc[2], note=step)
+            return None
+        return sites
+
+    out.evaluations += 1
+    s1 = ask('first path')
+    if not s1 or len(s1) < 3:
+        return
+    mid = s1[len(s1) // 2]
+    handed = fev.free_energy_graph(max_energy_threshold=THR)
+    if mid in handed:
+        handed.remove_node(mid)
+    s2 = ask(f'after the caller removed voxel {list(mid)} from a graph it had been handed')
+    if not s2:
+        return
+    mid2 = s2[len(s2) // 2]
+    fev.data[mid2] = BIGF
+    ask(f'after voxel {list(mid2)} of the volume was raised above the threshold in place')
+    out.count('same-object-sequences')
 
 
 def check_percolation(out: Outcome, rng, maxshape):
